@@ -32,19 +32,7 @@ def plan(tier, seed):
 
 
 def gen_trend(rng, x, y, normalized):
-    fam = ["poly", "sin", "const", "npscalar"][int(rng.integers(0, 4))]
-    mag = float(np.max(np.abs(y))) or 1.0
-    c = [float(v) for v in rng.normal(0, 1, 4)]
-    s = 1.0 if normalized else max(abs(float(x[0])), abs(float(x[-1])), 1.0)
-    if fam == "poly":
-        c = [mag * c[0], mag * c[1] / s, mag * c[2] / s ** 2, mag * c[3] / s ** 3]
-    elif fam == "sin":
-        c = [mag * c[0], c[1] * 6.0 / (1.0 if normalized else (float(x[-1] - x[0]) or 1.0)), c[2]]
-    elif fam == "const":
-        c = [mag * c[0]]
-    else:
-        c = [mag * c[0] / s, mag * c[1]]
-    return {"family": fam, "coef": c}
+    return W.gen_trend(rng, x, y, normalized)
 
 
 def run_case(ctx, kind_, idx):
